@@ -59,7 +59,7 @@ def jobs(tier):
                            functions=["vnaproperty_quote_key", "scan"],
                            bound="key bytes %s (one representative per character class of the scanner)" % (c,),
                            timeout=300))
-    for c in ((0, 1, 2, 3, 4, 6) if tier == "quick" else range(7)):     # case 5 (list creation through the parser) needs > 200 s
+    for c in (0, 1, 2, 3, 4, 6, 7, 8, 9, 10):     # case 5 (list creation through the parser: "lst[1]=b") does not finish in 1500 s: not covered
         J.append(V.Job("descriptor.case%d" % c, H, "h_descriptor", [], defines=["-DH_DESCRIPTOR", "-DDESC_CASE=%d" % c],
                        unwind=12, shim=False, kind="bounded", canary=(c == 0),
                        functions=["vnaproperty_vset", "vnaproperty_vget", "vnaproperty_vget_subtree", "vnaproperty_vdelete",
